@@ -401,3 +401,32 @@ Theorem C11_orphan_timer_refuted :
   handshakes false [(500, SClosed); (12000, SRunning)] = 2%nat /\
   handshakes true [(500, SClosed); (12000, SRunning)] = 3%nat.
 Proof. exact orphan_timer_refuted. Qed.
+
+(** A process makes any number of connections, to the same or to different
+    servers: every one is a handshake of its own - for every list of (client
+    key, server key, parameters) each server accepts its handshake and mirrors
+    the keys.  (Handing the secret derived for one server to another one is
+    refuted in Proofs/AdnlHistory.v.) *)
+Theorem C11_handshake_sequence :
+  forall (H : list N -> list N) cstate next init dh pub,
+  (forall x, length (H x) = 32%nat) -> (forall a b, dh a (pub b) = dh b (pub a)) ->
+  (forall a, length (pub a) = 32%nat) ->
+  forall conns : list (list N * list N * list N),
+  Forall (fun c => let '(cpriv, spriv, params) := c in
+            length params = 160%nat ->
+            server_accept H cstate next init dh spriv (pub spriv)
+              (handshake_bytes H cstate next init (pub spriv) params (pub cpriv) (dh cpriv (pub spriv)))
+            = Some {| sv_params := params; sv_tx := client_rx0 cstate init params;
+                      sv_rx := client_tx0 cstate init params |}) conns.
+Proof.
+  intros H cstate next init dh pub HL DA PL conns. apply Forall_forall.
+  intros [[cpriv spriv] params] _ Lp.
+  exact (C11_handshake_agrees H cstate next init dh pub HL DA PL cpriv spriv params Lp).
+Qed.
+
+Theorem C11_cached_keys_refuted :
+  server_accept hH2 N hnext hinit vadd keyB keyB
+    (handshake_bytes hH2 N hnext hinit keyB hparams ckey (vadd ckey keyA)) = None.
+(* closed by computation: [exact (proj2 cached_keys_refuted)] makes the kernel compare the two
+   statements by lazy conversion, which does not terminate in reasonable time on this toy instance *)
+Proof. vm_compute. reflexivity. Qed.
